@@ -38,6 +38,21 @@ def _t(x):
 def strengthen_side(pc, side):
     """side conditions Implies(guard, body) with pc (and the bodies already released) |= guard become plain `body`;
     iterated to a fixpoint (1/(1/s): the inner quotient is non-zero because of its own defining equation)"""
+    key = (tuple(p.get_id() for p in pc), tuple(x.get_id() for x in side))
+    hit = _STRENGTHEN_CACHE.get(key)
+    if hit is not None:
+        return list(hit[0])
+    res = _strengthen_side(pc, side)
+    if len(_STRENGTHEN_CACHE) > 64:
+        _STRENGTHEN_CACHE.clear()
+    _STRENGTHEN_CACHE[key] = (res, list(pc), list(side))      # the terms are kept alive so that their ids stay unique
+    return list(res)
+
+
+_STRENGTHEN_CACHE = {}
+
+
+def _strengthen_side(pc, side):
     pending = list(side)
     out = []
     s = core.mk_solver(1500)
@@ -77,8 +92,11 @@ def prove(pc, side, goal, want_model=True, quick=False):
     pc = [_t(p) for p in pc]
     t0 = time.time()
     STATS['queries'] += 1
+    sg = z3.simplify(goal)
+    if z3.is_true(sg):
+        return Verdict('proved', backend='trivial', secs=time.time() - t0)
     side2 = strengthen_side(pc, side)
-    parts = split_goal(z3.simplify(goal)) if True else [goal]
+    parts = split_goal(sg)
     worst = None
     for g in parts:
         v = _prove1(pc, side2, g, quick)
